@@ -59,10 +59,10 @@ func DeriveSeed(seed int64, labels ...string) uint64 {
 // Tape is the sole choice source of a case. Draw(n) returns a value in
 // [0,n); 0 is always the "simplest" choice by generator convention.
 type Tape struct {
-	rng    *Rng
-	replay []uint32
-	pos    int
-	Rec    []uint32
+	rng       *Rng
+	replay    []uint32
+	pos       int
+	Rec       []uint32
 	replaying bool
 }
 
